@@ -11,48 +11,44 @@ import fuzzgen
 import heapgen
 import vlib
 
-CASE_TIMEOUT = 15          # seconds for one input (all entry points) when run alone
+MAX_DEATHS = 4            # per shard
+CASE_TIMEOUT = 10          # seconds for one input (all entry points) when run alone
 SLOW_MS = 20000
 
 
 def run_shard(exe, cases, timeout):
-    """Runs the cases in one driver process; on a crash or time-out the culprit is the first case without output.
-    Returns one result string per case."""
+    """Runs the cases in one driver process. Every fuzz op arms an alarm in the driver (CASE_TIMEOUT seconds): a call
+    that does not come back, or a crash, ends the process; the culprit is the first case without a result and the
+    remaining cases are run in a new process.  After MAX_DEATHS deaths the rest of the shard is skipped."""
     res = []
     todo = list(cases)
-    env = dict(os.environ, ASAN_OPTIONS='detect_leaks=0:abort_on_error=0:allocator_may_return_null=1', UBSAN_OPTIONS='print_stacktrace=1')
+    deaths = 0
+    env = dict(os.environ, ASAN_OPTIONS='detect_leaks=0:abort_on_error=0:allocator_may_return_null=1:handle_segv=1',
+               UBSAN_OPTIONS='print_stacktrace=1')
     while todo:
-        text = '\n'.join('fuzz %s\nend' % c.hex() for c in todo) + '\n'
+        if deaths >= MAX_DEATHS:
+            res += ['<skipped>'] * len(todo)
+            break
+        text = '\n'.join('fuzz %s %d\nend' % (c.hex() or '-', CASE_TIMEOUT) for c in todo) + '\n'
         try:
             p = subprocess.run([exe, 'heap'], input=text, stdout=subprocess.PIPE, stderr=subprocess.PIPE,
                                universal_newlines=True, timeout=timeout, errors='replace', env=env)
-            outs = [o[0] if o else '<empty>' for o in heapgen.split_results(p.stdout)]
-            failed = p.returncode != 0
-            err = p.stderr[-1500:]
+            so, failed, err = p.stdout, p.returncode != 0, p.stderr[-1500:]
         except subprocess.TimeoutExpired as e:
             so = e.stdout.decode('utf-8', 'replace') if isinstance(e.stdout, bytes) else (e.stdout or '')
-            outs = [o[0] if o else '<empty>' for o in heapgen.split_results(so)]
-            failed = True
-            err = 'time-out after %d s' % timeout
-        outs = outs[:len(todo)]
+            failed, err = True, 'shard time-out after %d s' % timeout
+        hang = '<hang-alarm>' in so
+        outs = [o[0] if o else '<empty>' for o in heapgen.split_results(so.replace('<hang-alarm>\n', ''))]
+        outs = [o for o in outs if o != '<empty>'][:len(todo)]
         res += outs
-        if len(outs) == len(todo) and not failed:
+        if len(outs) == len(todo):
+            if failed:
+                res[-1] = '<crash> after the last case: ' + err.replace('\n', ' | ')
             break
-        if len(outs) == len(todo):          # failure after the last case (exit handlers)
-            res[-1] = '<crash> ' + err.replace('\n', ' | ')
-            break
-        k = len(outs)                       # todo[k] is the culprit: run it alone to tell a crash from a hang
-        try:
-            q = subprocess.run([exe, 'heap'], input='fuzz %s\nend\n' % todo[k].hex(), stdout=subprocess.PIPE, stderr=subprocess.PIPE,
-                               universal_newlines=True, timeout=CASE_TIMEOUT, errors='replace', env=env)
-            if q.returncode != 0:
-                res.append('<crash> ' + q.stderr[-1500:].replace('\n', ' | '))
-            else:
-                o = heapgen.split_results(q.stdout)
-                res.append(o[0][0] if o and o[0] else '<empty>')      # only fails in company: keep its own result
-        except subprocess.TimeoutExpired:
-            res.append('<hang> no result within %d s' % CASE_TIMEOUT)
-        todo = todo[k + 1:]
+        deaths += 1
+        res.append(('<hang> no result within %d s' % CASE_TIMEOUT) if hang or 'time-out' in err
+                   else '<crash> ' + err.replace('\n', ' | '))
+        todo = todo[len(outs) + 1:]
     return res
 
 
@@ -62,7 +58,7 @@ def run_all(exe, cases, shards=16):
     results = [None] * len(chunks)
 
     def work(k):
-        results[k] = run_shard(exe, chunks[k], timeout=40 + 2 * len(chunks[k]))
+        results[k] = run_shard(exe, chunks[k], timeout=60 + 2 * len(chunks[k]) + CASE_TIMEOUT)
     ths = [threading.Thread(target=work, args=(k,)) for k in range(len(chunks))]
     for t in ths:
         t.start()
@@ -78,6 +74,8 @@ def judge(r):
         return ('crash:' + kind, 'the process died: ' + r[8:400])
     if r.startswith('<hang>'):
         return ('hang', r)
+    if r.startswith('<skipped>'):
+        return None
     if not r.startswith('ok '):
         return ('driver-error', r[:200])
     t = r.split()
